@@ -398,7 +398,11 @@ var c38BadLogin = []string{"wrong_password", "wrong_user", "empty_both", "empty_
 // login performs one login attempt on mux i (0 = under test) and updates the reference.
 func (w *c38World) login(i int, cl c38Client, kind string, method string) c38Resp {
 	body, good := w.loginBody(kind)
-	req, err := c38NewReq(method, c38Login, cl.remote(w.rng), body)
+	target := c38Login
+	if w.rng.Intn(8) == 0 { // other spellings of the login endpoint must draw on the same budget
+		target = []string{c38Login + "?next=/ui/", "http://console.example" + c38Login, c38Login + "?username=" + w.cfg.Username, "/ui/api/auth/%6cogin"}[w.rng.Intn(4)]
+	}
+	req, err := c38NewReq(method, target, cl.remote(w.rng), body)
 	if err != nil {
 		return c38Resp{}
 	}
@@ -923,7 +927,7 @@ func TestVerifC38Sessions(t *testing.T) {
 	r.Note("configured", map[string]any{"ttl": ttl.String(), "limit": limit, "window": window.String()})
 	confirmed := false
 
-	n := r.N(220, 4000)
+	n := r.N(200, 2500)
 	for ci := 0; ci < n; ci++ {
 		rng := r.Rand(ci)
 		synctest.Test(t, func(t *testing.T) {
